@@ -80,7 +80,10 @@ def case(draw):
     return {'tree': spec, 'manifests': rendered, 'muts': muts,
             'subpath': subpath, 'subpath2': subpath2,
             'last_mtime': last_mtime, 'api': api,
-            'tags': lay['tags'], 'nfiles': nfiles}
+            'tags': lay['tags'], 'nfiles': nfiles,
+            # verify the still unmutated tree first (state kept between two
+            # verifications of the same paths must not leak)
+            'pre_verify': draw(st.integers(0, 3)) == 0}
 
 
 def strat(tier):
@@ -90,6 +93,9 @@ def strat(tier):
 def build(desc, root):
     treegen.materialize(desc['tree'], root)
     layout.write_manifests(desc['manifests'], root)
+    if desc.get('pre_verify'):
+        gem.verify_lib(root)
+        gem.verify_lib(root, fail_handler=lambda e: True)
     mutate.apply_ops(root, desc['muts'])
 
 
@@ -147,11 +153,27 @@ def judge(model, oc, what):
             sig='unexpected-oserror:' + buckets_sig(oc))
     if oc.kind == 'loop' and any('loop' in v for v in model.dontcare.values()):
         return None
-    if oc.kind == 'gemato' and model.unparsable:
+    if oc.kind == 'gemato' and (model.unparsable or hard or soft):
+        # another diagnosed failure (e.g. a stray file that carries a
+        # Manifest name and is not a Manifest) where a failure is due
         return None
     return violation(
         f'{what}: unexpected {oc.describe()}; reference: '
         f'{model.summary()!r}', sig='unexpected:' + buckets_sig(oc))
+
+
+def junk_manifest_above(root, subs):
+    import refmanifest as R
+    for sub in subs:
+        parts = sub.split('/') if sub else []
+        for i in range(1, len(parts) + 1):
+            p = os.path.join(root, *parts[:i], 'Manifest')
+            if os.path.isfile(p):
+                try:
+                    R.parse_strict(R.read_manifest_file(p))
+                except Exception:
+                    return True
+    return False
 
 
 def buckets_sig(oc):
@@ -192,6 +214,13 @@ def run_case(desc):
                 models.append(refverify.evaluate(root, 'Manifest', sub2))
             oc, records, _ = gem.cli(['verify'] + paths)
             v = None
+            if oc.kind == 'gemato' and junk_manifest_above(
+                    root, [sub] + ([desc['subpath2']]
+                                   if desc['api'] == 'cli2' else [])):
+                # the CLI's upward search for the top-level Manifest met a
+                # file named Manifest that is not one (C15's subject)
+                return ok(classes=classes + ['junk-manifest-on-the-way-up'],
+                          dontcare=True)
             if oc.kind == 'return':
                 hard = [m for m in models if m.chain_broken or m.unparsable
                         or m.incompatible or m.offending]
